@@ -308,14 +308,20 @@ def wrappers(inner):
     async def w_agen(*args, **kwargs):
         yield inner(*args, **kwargs)
     return dict(plain=w_plain, coro=w_coro, gen=w_gen, agen=w_agen)
-def kind(f): return (inspect.iscoroutinefunction(f), inspect.isgeneratorfunction(f), inspect.isasyncgenfunction(f))
+def kind(f): return (inspect.iscoroutinefunction(f), inspect.isgeneratorfunction(f), inspect.isasyncgenfunction(f), bool(getattr(getattr(f, '__code__', None), 'co_flags', 0) & inspect.CO_ITERABLE_COROUTINE))
+import types
+@types.coroutine
+def itercoro(x: int):
+    y = yield x
+    return y
+INNER['itercoro'] = itercoro
 bad = []
 for iname, inner in INNER.items():
     cands = dict(wrappers(inner)); cands['direct'] = inner
     for wname, w in cands.items():
         try: d = beartype(w)
         except Exception as e: continue      # functools.wraps copies the annotations: a generator wrapper annotated `-> int` is rightly refused at decoration time
-        if kind(d) != kind(w): bad.append((iname, wname, f'kind {kind(w)} became {kind(d)}'))
+        if kind(d) != kind(w): bad.append((iname, wname, f'kind {kind(w)} became {kind(d)}' + (' [iterable coroutine flag lost: the result of calling it is no longer awaitable]' if kind(w)[3] and not kind(d)[3] else '')))
 print(bad)
 sys.exit(1 if bad else 0)
 """
@@ -328,7 +334,8 @@ def kinds_bounded(rep):
     p = subprocess.run([sys.executable, '-c', src], capture_output=True, text=True, timeout=120)
     if p.returncode not in (0, 1): rep.error('C08 kinds_bounded harness: ' + (p.stdout + p.stderr)[-500:]); return
     if p.returncode == 1:
-        rep.add('C08.kinds.bounded.kind_preserved', 'refuted', backend='runtime-contract', where=p.stdout.strip()[-300:], solver_output='bounded run-time contract (not a proof)',
+        only_itercoro = 'iterable coroutine flag lost' in p.stdout and p.stdout.count("kind (") == p.stdout.count('iterable coroutine flag lost')
+        rep.add('C08.kinds.bounded.kind_preserved' + ('.types_coroutine' if only_itercoro else ''), 'refuted', backend='runtime-contract', where=p.stdout.strip()[-300:], solver_output='bounded run-time contract (not a proof)',
                 replay=dict(reproduced=True, detail=p.stdout.strip()[-300:]), replay_script=("os.environ['VERIF_REPO'] = %r\nimport pyvc; pyvc.use_repo()\n" % REPO) + KIND_SRC)
     rep.bounded.append(dict(kind='kind of the decorated callable == kind of the callable it decorates (bounded stand-in, NOT counted as proved)', cases=20, failing=int(p.returncode == 1),
                             bound='4 inner kinds x (direct + 4 kinds of functools.wraps wrapper)'))
